@@ -27,6 +27,10 @@ pub struct C19 {
     /// the output path already holds the (longer) table of an earlier training run
     #[serde(default)]
     pub stale_output: bool,
+    /// a second, unrelated training runs on another thread of the same process at the same time
+    /// and writes next to the observed table (same file stem, other extension)
+    #[serde(default)]
+    pub twin_training: bool,
 }
 
 fn norm_of(n: u8) -> Option<Normalization> {
@@ -268,7 +272,9 @@ impl Scenario for C19 {
             normalization: *rng.pick(&[0u8, 3, 3, 1, 2, 4]),
             threads: ts,
             stale_output: rng.chance(0.3),
+            twin_training: false,
         }
+        .with_twin(&mut rng)
     }
 
     fn run_seed(&self) -> u64 {
@@ -286,6 +292,11 @@ impl Scenario for C19 {
 
     fn shrink(&self) -> Vec<Self> {
         let mut v = vec![];
+        if self.twin_training {
+            let mut c = self.clone();
+            c.twin_training = false;
+            v.push(c);
+        }
         if self.stale_output {
             let mut c = self.clone();
             c.stale_output = false;
@@ -426,7 +437,25 @@ impl Scenario for C19 {
             let t = *t;
             let slot: Arc<Mutex<Option<Result<(), String>>>> = Arc::new(Mutex::new(None));
             let slot2 = slot.clone();
+            let twin = if self.twin_training {
+                let corpus = dir.path(&format!("twin{pi}.txt"));
+                std::fs::write(&corpus, "zq zq zqx\nqz zq\nzq qq zq\n").expect("write twin corpus");
+                stats.fault("second_training_on_another_thread_writing_next_to_the_table");
+                Some((corpus, dir.path(&format!("merges{pi}.alt"))))
+            } else {
+                None
+            };
+            let twin_out = twin.as_ref().map(|t| t.1.clone());
+            let twin_res: Arc<Mutex<Option<Result<(), String>>>> = Arc::new(Mutex::new(None));
+            let twin_res2 = twin_res.clone();
             let r = run_process(&spec, move || {
+                let other = twin.map(|(corpus, out)| {
+                    let tr = twin_res2.clone();
+                    verif_rt::shim::std::thread::spawn(move || {
+                        let res = train_bpe(&[corpus], 320, 61, &out, None, None, 1, false);
+                        *tr.lock().unwrap() = Some(res.map_err(|e| format!("{e:#}")));
+                    })
+                });
                 let res = train_bpe(
                     &paths2,
                     sc.vocab_size,
@@ -438,7 +467,25 @@ impl Scenario for C19 {
                     false,
                 );
                 *slot2.lock().unwrap() = Some(res.map_err(|e| format!("{e:#}")));
+                if let Some(h) = other {
+                    let _ = h.join();
+                }
             });
+            if let Some(out) = &twin_out {
+                // the other training is not the subject, but it must have produced its own table
+                let tres = twin_res.lock().unwrap().take();
+                if violation.is_none() && r.status == Status::Completed {
+                    match tres {
+                        Some(Ok(())) => match MergeOps::load(out) {
+                            Ok(ops) if ops.len() <= 3 => {}
+                            Ok(ops) => violation = Some(Violation { class: "twin:table-wrong".into(), detail: format!("num_threads={t}: the concurrent training (3 merges requested) left a table of {} entries", ops.len()) }),
+                            Err(e) => violation = Some(Violation { class: "twin:table-unreadable".into(), detail: format!("num_threads={t}: the concurrent training left no readable table: {e:#}") }),
+                        },
+                        Some(Err(e)) => violation = Some(Violation { class: "twin:error".into(), detail: format!("num_threads={t}: the concurrent training failed: {e}") }),
+                        None => {}
+                    }
+                }
+            }
             stats.absorb_proc(&r);
             stats.probe_max("max_decisions_in_one_run", r.decisions);
             stats.fault("fresh_hash_keys_per_process");
@@ -527,6 +574,10 @@ impl Scenario for C19 {
 }
 
 impl C19 {
+    fn with_twin(mut self, rng: &mut Rng) -> Self {
+        self.twin_training = rng.chance(0.15);
+        self
+    }
     fn judge(&self, t: u8, out_file: &str, words: &BTreeMap<String, usize>, stats: &mut RunStats) -> Option<Violation> {
         let v = |class: &str, detail: String| Some(Violation { class: class.into(), detail });
         let requested = self.vocab_size.saturating_sub(256).saturating_sub(self.num_special);
